@@ -142,6 +142,13 @@ func c17history(t *testing.T, out *vharness.Out, rng *rand.Rand, kind string) {
 	registered := [2]map[string]c17ts{{}, {}}
 	everRegistered := [2]map[string]bool{{}, {}}  // topic|seed pairs ever registered on the peer
 	resolvedPeriod := [2]map[string]int64{{}, {}} // topic -> period in which the peer last resolved it
+	history := [2]map[string][]int64{{}, {}}      // topic -> periods whose point the peer has held (oldest first)
+	noteHeld := func(b int, topic string, per int64) {
+		h := history[b][topic]
+		if len(h) == 0 || h[len(h)-1] != per {
+			history[b][topic] = append(h, per)
+		}
+	}
 	fail := func(s, n string) {
 		if ok && !collision {
 			ok, sig, note = false, s, n
@@ -162,6 +169,8 @@ func c17history(t *testing.T, out *vharness.Out, rng *rand.Rand, kind string) {
 			peers[b].RegisterRotation(vclockNow(), p.topic, p.seed)
 			registered[b][p.topic] = p
 			everRegistered[b][p.topic+"|"+string(p.seed)] = true
+			history[b][p.topic] = nil // a new registration may change the seed: start over
+			noteHeld(b, p.topic, (nowSec()/interval)*interval)
 			ops = append(ops, fmt.Sprintf("ORegister %s %s %s", pb(b), c17bytes([]byte(p.topic)), c17bytes(p.seed)))
 			obs = append(obs, "None")
 		case r < 5: // resolve topic
@@ -183,6 +192,7 @@ func c17history(t *testing.T, out *vharness.Out, rng *rand.Rand, kind string) {
 						fail("stale rendezvous point after the deadline", fmt.Sprintf("PointForTopic(%q) at unix %d returned deadline %d, not in the future", p.topic, nowSec(), pt.Deadline().Unix()))
 					}
 					resolvedPeriod[b][p.topic] = per
+					noteHeld(b, p.topic, per)
 				}
 			} else if err == nil {
 				fail("unknown topic resolved", fmt.Sprintf("PointForTopic(%q) succeeded although never registered on that peer", p.topic))
@@ -199,6 +209,9 @@ func c17history(t *testing.T, out *vharness.Out, rng *rand.Rand, kind string) {
 			}
 			per := (nowSec() / interval) * interval
 			resolvedPeriod[b][p.topic] = per
+			if _, isReg := registered[b][p.topic]; isReg {
+				noteHeld(b, p.topic, per)
+			}
 			q, err2 := peers[1-b].PointForRawRotation(pt.RawRotationTopic())
 			obs = append(obs, c17obs(q, err2, pairs, nowSec(), interval))
 			// oracle (peers_agree): if the other peer registered the same (topic, seed) and has resolved
@@ -225,6 +238,27 @@ func c17history(t *testing.T, out *vharness.Out, rng *rand.Rand, kind string) {
 			}
 			if okA && !okB && err2 == nil && sameLenOnly && !everRegistered[1-b][p.topic+"|"+string(regA.seed)] {
 				fail("rotation value of an unknown topic accepted", fmt.Sprintf("topic %q", p.topic))
+			}
+			nontrivial = true
+		case r < 8 && len(history[b][pairs[0].topic])+len(history[b][pairs[1].topic]) > 0 && rng.Intn(2) == 0:
+			// the peer's own earlier rotation value for a topic it still has registered (grace period)
+			topic := pairs[0].topic
+			if len(history[b][topic]) == 0 || (len(history[b][pairs[1].topic]) > 0 && rng.Intn(2) == 0) {
+				topic = pairs[1].topic
+			}
+			h := history[b][topic]
+			per := h[rng.Intn(len(h))]
+			reg := registered[b][topic]
+			rot := GenerateRendezvousPointForPeriod([]byte(reg.topic), reg.seed, time.Unix(per, 0))
+			ops = append(ops, fmt.Sprintf("ORot %s (%s, %s)", pb(b), c17bytes(append([]byte(reg.topic), reg.seed...)), c17z(per)))
+			q, err := peers[b].PointForRawRotation(rot)
+			obs = append(obs, c17obs(q, err, pairs, nowSec(), interval))
+			if nowNs() < (per+2*interval)*1e9+86400*1e9 {
+				if err != nil {
+					fail("own previous rotation value refused during the grace period", fmt.Sprintf("topic %q period %d at unix %d (interval %ds): %v", topic, per, nowSec(), interval, err))
+				} else if q.Topic() != topic {
+					fail("rotation value mapped to another topic", fmt.Sprintf("topic %q mapped to %q", topic, q.Topic()))
+				}
 			}
 			nontrivial = true
 		case r < 8: // explicit rotation value (previous / current / next period, any pair)
